@@ -64,7 +64,8 @@ NAMES = {v: k for k, v in CLASSES.items()}
 KIND_CLS = {"ce": CE, "e1": E1, "e1s": E1s, "e2": E2, "cn": asyncio.CancelledError, "cs": Cs, "be": BE, "xc": asyncio.CancelledError,
             "si": StopIteration}      # sync variants only: a coroutine cannot raise StopIteration
 SIX = ["ok", "e1", "e1s", "e2", "cn", "be"]
-ALL_KINDS = SIX + ["cs", "xc", "ce", "si"]
+ALL_KINDS = SIX + ["cs", "xc", "ce", "si", "ov"]   # "ov": the call SUCCEEDS and its value is an exception instance
+# of a caught class (exceptions used as data: a success is returned, never retried); the model sees it as "ok"
 CATCH_EX = ["c:E1", "t:E1,E2", "s:E1", "s:E1s,E2", "t:Ex,Cn,Bx", "d"]
 DELAY_EX = ["n", "i2", "f3", "b1", "fn:2,1,0"]
 CATCH_RND = CATCH_EX + ["c:Ex", "c:E1s", "t:E2", "s:E1,E2,BE", "t:E1s,Cs", "c:Cn", "s:Bx", "t:E1,E1s"]
@@ -119,6 +120,12 @@ def parse(case: str):
     except (ValueError, KeyError):
         return None
     return variant, bare, limit, form, classes, delay, kinds
+
+
+def model_input(case: str, out: str) -> str:
+    """the model has no notion of *what* a successful call returned: `ov` is a success"""
+    toks = case.split()
+    return " ".join(toks[:4] + ["ok" if t == "ov" else t for t in toks[4:]])
 
 
 SENT_A = object()
@@ -241,6 +248,16 @@ def run_real(case: str) -> str:
                 return i
         return None
 
+    returned: dict[int, BaseException] = {}
+
+    def show_ok(res) -> str:
+        if isinstance(res, tuple) and len(res) == 2 and res[0] == "val":
+            return f"ok@{res[1]}"
+        for i, v in returned.items():
+            if v is res:
+                return f"ok@{i}"
+        return "ok@?"
+
     def make_delay(attempt, exc):
         i = idx_of(exc)
         fnlog.append(f"{attempt}:{'?' if i is None else i}")
@@ -277,6 +294,9 @@ def run_real(case: str) -> str:
         ends.append(clock.now)
         if kind == "ok":
             return ("val", i)
+        if kind == "ov":
+            returned[i] = E1(f"value of call {i}")
+            return returned[i]
         exc = KIND_CLS[kind](f"call {i}")
         raised[i] = exc
         raise exc
@@ -300,7 +320,7 @@ def run_real(case: str) -> str:
                 return "assert-limit"
             try:
                 res = wrapped(SENT_A, 7, key=SENT_K)
-                final = f"ok@{res[1]}" if isinstance(res, tuple) and len(res) == 2 and res[0] == "val" else "ok@?"
+                final = show_ok(res)
             except BaseException as exc:  # noqa: BLE001
                 i = idx_of(exc)
                 final = f"foreign:{type(exc).__name__}" if i is None else f"{NAMES.get(type(exc), '?')}@{i}"
@@ -341,7 +361,7 @@ def run_real(case: str) -> str:
             async def caller():
                 try:
                     res = await wrapped(SENT_A, 7, key=SENT_K)
-                    box.append(f"ok@{res[1]}" if isinstance(res, tuple) and len(res) == 2 and res[0] == "val" else "ok@?")
+                    box.append(show_ok(res))
                 except BaseException as exc:  # noqa: BLE001
                     i = idx_of(exc)
                     box.append(f"foreign:{type(exc).__name__}" if i is None else f"{NAMES.get(type(exc), '?')}@{i}")
@@ -397,6 +417,7 @@ def monitor(case: str, out: str) -> list[str]:
     if p is None:
         return []
     variant, bare, limit, form, classes, delay, kinds = p
+    kinds = ["ok" if k == "ov" else k for k in kinds]     # a success whose value happens to be an exception instance
     variant = variant[0]
     if limit == 0:
         return []  # outside the property (limits >= 1); the assertion is compared with the model only
@@ -505,6 +526,8 @@ def corpus():
         "a 1 c:E1 i2 e1",
         # StopIteration is an Exception like any other (sync wrappers)
         "s 2 c:E1 n e1 si", "s 2 c:SI n si si si", "sp 1 d i1 si ok", "s 3 t:E1,SI f1 e1 si e2",
+        # exceptions used as data: a call that RETURNS an instance of a caught class succeeded – returned as it is, once
+        "s 2 c:E1 n ov", "a 3 d i1 e1 ov e1", "A 2 t:E1,E2 fn:2,1,0 ov ok", "sp 1 c:E1 n e1 ov",
         # an async adapter over a sync original (`functools.wraps(blocking)`)
         "aw 2 c:E1 n e1 e1 ok", "aw 1 d i1 e2 ok", "aw 3 t:E1,E2 n e1 e2 be",
         "s 2 d i3 e1 e2 ok",
@@ -621,6 +644,8 @@ def _extra_cases(rng, n: int):
                 # a retried reader built on `next(...)`: the final outcome is a StopIteration (sync wrappers only)
                 seq.insert(rng.randint(0, len(seq)), "si")
                 cat = rng.choice([cat, "c:SI", "t:E1,SI", "d"])
+            if rng.random() < 0.3 and seq:
+                seq[rng.randrange(len(seq))] = "ov"
             yield " ".join([v, str(limit), cat, rng.choice(DELAY_RND), *seq])
         else:
             a = [rng.choice(["e1", "e1", "e1s", "e2", "ok"]) for _ in range(rng.randint(0, limit + 2))]
